@@ -299,7 +299,11 @@ def run_case(case, ctx):
                 if signed:
                     got = Y.double()
                     approx = (sc / 2 ** sh - (s_w * s_x).reshape(shape)).abs()
-                    bound = (acc.abs() + 1) * approx + 1e-3 * logits.abs() + \
+                    # the integer bias is scaled by the same approximated factor as the accumulator
+                    b_last = 0.0
+                    if isinstance(getattr(L, 'add_bias', None), torch.Tensor):
+                        b_last = L.add_bias.detach().double() / sc
+                    bound = ((acc + b_last).abs() + 1) * approx + 1e-3 * logits.abs() + \
                         (s_w * s_x).reshape(shape) + 1e-6
                 else:
                     got = Y.double() * (s_w * s_x).reshape(shape)
